@@ -1101,12 +1101,81 @@ Proof.
   intros y Hy [<-|[]]. contradiction.
 Qed.
 
+(* ------------------------------------------------------------------ children are listed in declaration order *)
+
+Definition vars_of (l : list item_id) : list nat := flat_map (fun x => match x with IVar i => [i] | IScope _ => [] end) l.
+Definition scopes_of (l : list item_id) : list nat := flat_map (fun x => match x with IScope i => [i] | IVar _ => [] end) l.
+
+Fixpoint increasing (l : list nat) : Prop :=
+  match l with
+  | [] => True
+  | x :: r => Forall (fun y => (x < y)%nat) r /\ increasing r
+  end.
+
+Lemma increasing_snoc l n : increasing l -> Forall (fun y => (y < n)%nat) l -> increasing (l ++ [n]).
+Proof.
+  induction l as [|x r IH]; intros Hi Hl; cbn [app increasing]; [split; constructor|].
+  destruct Hi as [Hx Hr]. apply Forall_cons_iff in Hl as [Hxn Hl]. split.
+  - apply Forall_app. split; [exact Hx|constructor; [exact Hxn|constructor]].
+  - now apply IH.
+Qed.
+
+(* within every children list the variables appear in the order they were added, and so do the scopes *)
+Definition order_ok (kt : list item_id) (ks : list (list item_id)) : Prop :=
+  forall p, pvalid ks p -> increasing (vars_of (kids kt ks p)) /\ increasing (scopes_of (kids kt ks p)).
+
+Lemma vars_of_app a c : vars_of (a ++ c) = vars_of a ++ vars_of c.
+Proof. unfold vars_of. apply flat_map_app. Qed.
+Lemma scopes_of_app a c : scopes_of (a ++ c) = scopes_of a ++ scopes_of c.
+Proof. unfold scopes_of. apply flat_map_app. Qed.
+
+Lemma vars_of_bound b kt ks (Hinv : hinv b kt ks) p : pvalid ks p -> Forall (fun y => (y < length (hb_vars b))%nat) (vars_of (kids kt ks p)).
+Proof.
+  intros Hp. apply Forall_forall. intros y Hy. unfold vars_of in Hy. apply in_flat_map in Hy as (x & Hx & Hy).
+  destruct x as [i|i]; [destruct Hy|]. destruct Hy as [<-|[]]. exact (kids_valid b kt ks Hinv p (IVar i) Hp Hx).
+Qed.
+
+Lemma scopes_of_bound b kt ks (Hinv : hinv b kt ks) p : pvalid ks p -> Forall (fun y => (y < length (hb_scopes b))%nat) (scopes_of (kids kt ks p)).
+Proof.
+  intros Hp. apply Forall_forall. intros y Hy. unfold scopes_of in Hy. apply in_flat_map in Hy as (x & Hx & Hy).
+  destruct x as [i|i]; [|destruct Hy]. destruct Hy as [<-|[]]. exact (kids_valid b kt ks Hinv p (IScope i) Hp Hx).
+Qed.
+
+(* adding a kid with a fresh, largest index keeps every list in order *)
+Lemma order_add_var b kt ks (Hinv : hinv b kt ks) P : pvalid ks P -> order_ok kt ks ->
+  order_ok (fst (add_kid kt ks P (IVar (length (hb_vars b))))) (snd (add_kid kt ks P (IVar (length (hb_vars b))))).
+Proof.
+  intros HP Ho p Hp. assert (Hp' : pvalid ks p) by (destruct p; [cbn [pvalid] in *; rewrite add_kid_length in Hp; exact Hp|exact I]).
+  assert (Hdec : p = P \/ p <> P) by (destruct p as [a|], P as [c0|]; try (right; congruence); [destruct (Nat.eq_dec a c0); [left; congruence|right; congruence]|left; reflexivity]).
+  destruct Hdec as [->|Hne].
+  - rewrite kids_add_same by exact HP. rewrite vars_of_app, scopes_of_app. cbn [vars_of scopes_of flat_map app]. rewrite app_nil_r.
+    destruct (Ho P HP) as [H1 H2]. split; [|exact H2]. apply increasing_snoc; [exact H1|]. now apply (vars_of_bound b kt ks Hinv).
+  - rewrite kids_add_other by exact Hne. now apply Ho.
+Qed.
+
+Lemma order_add_scope b kt ks (Hinv : hinv b kt ks) P : pvalid ks P -> order_ok kt ks ->
+  order_ok (fst (add_kid kt ks P (IScope (length (hb_scopes b))))) (snd (add_kid kt ks P (IScope (length (hb_scopes b)))) ++ [[]]).
+Proof.
+  intros HP Ho p Hp.
+  assert (Hpc : p = Some (length ks) \/ pvalid ks p).
+  { destruct p as [q|]; [|right; exact I]. cbn [pvalid] in *. rewrite app_length, add_kid_length in Hp. cbn [length] in Hp.
+    destruct (Nat.eq_dec q (length ks)); [left; congruence|right; lia]. }
+  destruct Hpc as [->|Hp'].
+  - cbn [kids]. rewrite app_nth2 by (rewrite add_kid_length; lia). rewrite add_kid_length, Nat.sub_diag. cbn. split; exact I.
+  - rewrite kids_ext by (destruct p; [cbn [pvalid] in *; rewrite add_kid_length; exact Hp'|exact I]).
+    assert (Hdec : p = P \/ p <> P) by (destruct p as [a|], P as [c0|]; try (right; congruence); [destruct (Nat.eq_dec a c0); [left; congruence|right; congruence]|left; reflexivity]).
+    destruct Hdec as [->|Hne].
+    + rewrite kids_add_same by exact HP. rewrite vars_of_app, scopes_of_app. cbn [vars_of scopes_of flat_map app]. rewrite app_nil_r.
+      destruct (Ho P HP) as [H1 H2]. split; [exact H1|]. apply increasing_snoc; [exact H2|]. now apply (scopes_of_bound b kt ks Hinv).
+    + rewrite kids_add_other by exact Hne. now apply Ho.
+Qed.
+
 (* all builder states reachable by balanced op sequences: well-formed and with unique sibling scope names *)
 Theorem hier_run_wf : forall ops b kt ks b',
-  hinv b kt ks -> names_ok b kt ks -> balanced (length (hb_stack b) - 1) ops -> hier_run b ops = Ok b' ->
-  exists kt' ks', hinv b' kt' ks' /\ names_ok b' kt' ks'.
+  hinv b kt ks -> names_ok b kt ks -> order_ok kt ks -> balanced (length (hb_stack b) - 1) ops -> hier_run b ops = Ok b' ->
+  exists kt' ks', hinv b' kt' ks' /\ names_ok b' kt' ks' /\ order_ok kt' ks'.
 Proof.
-  induction ops as [|op ops IH]; intros b kt ks b' Hinv Hnm Hbal H; cbn [hier_run] in H.
+  induction ops as [|op ops IH]; intros b kt ks b' Hinv Hnm Hord Hbal H; cbn [hier_run] in H.
   - inversion H; subst. eauto.
   - destruct (hier_step b op) as [b1| |] eqn:E1; try discriminate. cbn [bind] in H.
     destruct op as [nm c t dl f|nm t d e i s tn|]; cbn [hier_step balanced] in *.
@@ -1114,19 +1183,19 @@ Proof.
       pose proof (top_parent_valid b kt ks Hinv) as HPv.
       set (P := top_parent (hb_stack b)) in *.
       destruct (first_named b nm (kids kt ks P)) as [d|] eqn:Efn.
-      * destruct Hs as (Hi & Hsc & _ & Hlen). eapply IH; [exact Hi| | |exact H].
+      * destruct Hs as (Hi & Hsc & _ & Hlen). eapply IH; [exact Hi| |exact Hord| |exact H].
         -- intros p Hp. unfold scope_names. rewrite Hsc. apply (Hnm p Hp).
         -- rewrite Hlen. replace (S (length (hb_stack b)) - 1)%nat with (S (length (hb_stack b) - 1)); [exact Hbal|].
            pose proof (h_shape _ _ _ Hinv) as Hsh. destruct (hb_stack b); [destruct Hsh|cbn; lia].
       * assert (Hdepth : (S (length (hb_stack b)) - 1 = S (length (hb_stack b) - 1))%nat).
         { pose proof (h_shape _ _ _ Hinv) as Hsh. destruct (hb_stack b); [destruct Hsh|cbn; lia]. }
         destruct f.
-        -- destruct Hs as (Hi & Hsc & _ & Hlen). eapply IH; [exact Hi| | |exact H].
+        -- destruct Hs as (Hi & Hsc & _ & Hlen). eapply IH; [exact Hi| |exact Hord| |exact H].
            ++ intros p Hp. unfold scope_names. rewrite Hsc. apply (Hnm p Hp).
            ++ rewrite Hlen, Hdepth. exact Hbal.
         -- destruct Hs as (Hi & Hlv & Hls & Hold & Hnew & Hlen).
            set (node := IScope (length (hb_scopes b))) in *.
-           eapply IH; [exact Hi| | |exact H]; [|rewrite Hlen, Hdepth; exact Hbal].
+           eapply IH; [exact Hi| |exact (order_add_scope b kt ks Hinv P HPv Hord)| |exact H]; [|rewrite Hlen, Hdepth; exact Hbal].
            intros p Hp.
            assert (Hn : length ks = length (hb_scopes b)) by apply (h_len _ _ _ Hinv).
            assert (Hpc : p = Some (length ks) \/ pvalid ks p).
@@ -1149,7 +1218,7 @@ Proof.
               ** rewrite kids_add_other by exact Hne. rewrite Hold' by (intros i Hin; eapply Hkv; eauto). apply (Hnm p Hp').
     + destruct (add_var_inv b kt ks nm t d e i s tn b1 Hinv E1) as (Hi & _ & Hls & _ & Hnames & _ & Hlen).
       pose proof (top_parent_valid b kt ks Hinv) as HPv. set (P := top_parent (hb_stack b)) in *.
-      eapply IH; [exact Hi| |now rewrite Hlen|exact H].
+      eapply IH; [exact Hi| |exact (order_add_var b kt ks Hinv P HPv Hord)|now rewrite Hlen|exact H].
       intros p Hp. assert (Hp' : pvalid ks p) by (destruct p; [cbn [pvalid] in *; rewrite add_kid_length in Hp; exact Hp|exact I]).
       assert (Hdec : p = P \/ p <> P) by (destruct p as [a|], P as [c0|]; try (right; congruence); [destruct (Nat.eq_dec a c0); [left; congruence|right; congruence]|left; reflexivity]).
       destruct Hdec as [->|Hne].
@@ -1160,7 +1229,7 @@ Proof.
       destruct (pop_scope_inv b kt ks b1 Hinv ltac:(lia) E1) as (Hi & Hsc & _).
       assert (Hlen : length (hb_stack b1) = (length (hb_stack b) - 1)%nat).
       { unfold pop_scope in E1. destruct (hb_stack b); [discriminate|]. inversion E1; subst. cbn. lia. }
-      eapply IH; [exact Hi| |now rewrite Hlen|exact H].
+      eapply IH; [exact Hi| |exact Hord|now rewrite Hlen|exact H].
       intros p Hp. unfold scope_names. rewrite Hsc. apply (Hnm p Hp).
 Qed.
 
@@ -1173,15 +1242,16 @@ Theorem hierarchy_wellformed ops b : balanced 0 ops -> hier_run hb_new ops = Ok 
     (forall p x, pvalid ks p -> In x (kids kt ks p) -> parent_of b x = p) /\
     (forall i p, parent_of b (IScope i) = Some p -> (p < i)%nat) /\
     (forall p, pvalid ks p -> NoDup (scope_names b (kids kt ks p))) /\
+    (forall p, pvalid ks p -> increasing (vars_of (kids kt ks p)) /\ increasing (scopes_of (kids kt ks p))) /\
     length ks = length (hb_scopes b).
 Proof.
   intros Hbal H.
-  destruct (hier_run_wf ops hb_new [] [] b hinv_new ltac:(intros [s|] Hp; [cbn in Hp; lia|constructor]) Hbal H) as (kt & ks & Hinv & Hnm).
+  destruct (hier_run_wf ops hb_new [] [] b hinv_new ltac:(intros [s|] Hp; [cbn in Hp; lia|constructor])
+              ltac:(intros [s|] Hp; [cbn in Hp; lia|cbn; split; exact I]) Hbal H) as (kt & ks & Hinv & Hnm & Hord).
   exists kt, ks. split; [exact (top_items_spec b kt ks Hinv)|]. split; [intros s Hs; exact (scope_items_spec b kt ks Hinv s Hs)|].
-  destruct (items_exactly_once b kt ks Hinv) as [Hp Hn]. repeat split; auto.
-  - apply (h_par _ _ _ Hinv).
-  - apply (h_parlt _ _ _ Hinv).
-  - apply (h_len _ _ _ Hinv).
+  destruct (items_exactly_once b kt ks Hinv) as [Hp Hn].
+  split; [exact Hp|]. split; [exact Hn|]. split; [apply (h_par _ _ _ Hinv)|]. split; [apply (h_parlt _ _ _ Hinv)|].
+  split; [exact Hnm|]. split; [exact Hord|apply (h_len _ _ _ Hinv)].
 Qed.
 
 Example hierarchy_example :
